@@ -85,6 +85,10 @@ func handle(p []string) (res string) {
 		return opJsonDec(p[1:])
 	case "jsonenc":
 		return opJsonEnc(p[1:])
+	case "wfault":
+		return opWFault(p[1:])
+	case "rfault":
+		return opRFault(p[1:])
 	case "rdops":
 		return opRdOps(p[1:])
 	case "sched":
